@@ -75,6 +75,8 @@ package schema
 //@   loop 1 invariant [C06,claim] nextPlaceholder >= placeholder
 //@   assert before invoke:EmptyCompletionData#1 : [C06] arg1 == nextPlaceholder
 //@   loop 1 iter [C06] nextPlaceholder == old(nextPlaceholder) || nextPlaceholder == attrData.NextPlaceholder
+//@   loop 1 iter [C06] implies(!attr.IsRequired, nextPlaceholder == old(nextPlaceholder))
+//@   loop 1 iter [C06] implies(attr.IsRequired, nextPlaceholder == attrData.NextPlaceholder)
 //@   ensures [C06] implies(ok, result.NextPlaceholder >= placeholder)
 //@ contract (schema.Object).EmptyCompletionData (o, ctx, placeholder, nestingLevel) (result)
 //@   ensures [C06] implies(hasText(result), result.NextPlaceholder >= placeholder)
